@@ -57,6 +57,10 @@ pub struct TrainCase {
     /// extended path (the builder itself only ever calls it on an empty path)
     #[serde(default)]
     pub hand_assembled: bool,
+    /// initial offset given as an absolute position (takes precedence over
+    /// `init_offset_extra`): used where the start must be an exactly representable number
+    #[serde(default)]
+    pub init_offset_abs: Option<f64>,
 }
 
 pub struct TrainRun {
@@ -146,7 +150,7 @@ pub fn run_case(case: &TrainCase) -> TrainRun {
     if case.mode == 0 {
         let built = (|| -> anyhow::Result<SetSpeedTrainSim> {
             let v0 = if case.init_speed_zero { None } else { case.trace.first().map(|p| p.1.max(0.0)) };
-            let tsb = case.train.build_builder_init_at(case.save_interval, None, v0, case.init_offset_extra)?;
+            let tsb = case.train.build_builder_init_abs(case.save_interval, None, v0, case.init_offset_extra, case.init_offset_abs)?;
             let trace = SpeedTrace::new(
                 case.trace.iter().map(|x| x.0).collect(),
                 case.trace.iter().map(|x| x.1).collect(),
@@ -628,18 +632,39 @@ pub fn gen_set_speed_case(g: &mut Gen, tier: Tier, allow_dummy: bool) -> TrainCa
             v = v_new;
             trace.push((r(t, 1), v));
         }
-        return TrainCase { links, train, mode: 0, trace, save_interval: Some(1), simulation_days: None, init_speed_zero: false, also_real_walk: false, scenario_year: None, and_parts: false, init_offset_extra: 0.0, hand_assembled: false };
+        return TrainCase { links, train, mode: 0, trace, save_interval: Some(1), simulation_days: None, init_speed_zero: false, also_real_walk: false, scenario_year: None, and_parts: false, init_offset_extra: 0.0, hand_assembled: false, init_offset_abs: None };
     }
     let o = ChainOpts { max_links: 6, len_weights: [6, 3, 1], ..Default::default() };
     let ahead = g.grid(400.0, 6000.0, 14);
     let links = gen_links_for(g, &tp, &o, tp.length + ahead, 0.0);
     let total: f64 = links.iter().map(|l| l.length).sum();
+    // 5 %: the run ends with the front *exactly* on the end of the path (whole-number start,
+    // steps of exactly representable length), then dwells there
+    if g.bool(0.05) && total - tp.length > 60.0 {
+        let n = (((total - tp.length - 2.0) / 4.0).floor() as usize).saturating_sub(g.usize(0, 3)).clamp(1, max_steps.saturating_sub(4).max(1));
+        let start = total - (4.0 * n as f64 + 2.0);
+        if start >= tp.length.ceil() && start.fract() == 0.0 {
+            let mut trace = vec![(train.init_time, 4.0)];
+            let mut t = train.init_time;
+            for _ in 0..n {
+                t += 1.0;
+                trace.push((t, 4.0));
+            }
+            t += 1.0;
+            trace.push((t, 0.0));
+            for _ in 0..2 {
+                t += 1.0;
+                trace.push((t, 0.0));
+            }
+            return TrainCase { links, train, mode: 0, trace, save_interval: Some(1), simulation_days: None, init_speed_zero: false, also_real_walk: false, scenario_year: None, and_parts: false, init_offset_extra: 0.0, hand_assembled: false, init_offset_abs: Some(start) };
+        }
+    }
     // 30 %: the train starts further along the path than with its tail at the beginning
     let room = total - tp.length - 120.0;
     let init_offset_extra = if g.bool(0.3) && room > 50.0 { r(g.f64(1.0, room * 0.7), 1) } else { 0.0 };
     // consistent inputs: the trace starts at the train's initial time and speed
     let trace = gen_trace(g, total - tp.length - init_offset_extra - 20.0, 30.0, train.init_time, max_steps);
-    TrainCase { links, train, mode: 0, trace, save_interval: Some(1), simulation_days: None, init_speed_zero: false, also_real_walk: false, scenario_year: None, and_parts: false, init_offset_extra, hand_assembled: false }
+    TrainCase { links, train, mode: 0, trace, save_interval: Some(1), simulation_days: None, init_speed_zero: false, also_real_walk: false, scenario_year: None, and_parts: false, init_offset_extra, hand_assembled: false, init_offset_abs: None }
 }
 
 // ---------------------------------------------------------------------------------------
